@@ -1,4 +1,5 @@
 """Shared pieces of the symbolic executor: paths, obligations, exceptions, solver helpers."""
+import os
 import time
 import z3
 from .theory import THEORY, all_axioms
@@ -60,16 +61,19 @@ class Obligation:
         return f"{self.func}:{self.kind}:{self.clause}"
 
 
-def new_solver(timeout_ms, relevancy=2, scope=None):
-    """scope: the formulas of the query; only the contract-module axioms that talk about symbols occurring in it are loaded (theory.extra_for)."""
-    s = z3.Solver()
+def new_solver(timeout_ms, relevancy=2, scope=None, ctx=None):
+    """scope: the formulas of the query; only the contract-module axioms that talk about symbols occurring in it are loaded (theory.extra_for).
+    ctx: a private z3 context for this query. The terms are copied into it, so that the solver's behaviour depends on the query alone and not
+    on what the process built or freed before (term identifiers of the shared context vary with the history and with garbage collection; they
+    steer z3's internal orders, and an obligation that takes 0.1 s in one run was seen to exhaust 20 s in the next)."""
+    s = z3.Solver(ctx=ctx) if ctx is not None else z3.Solver()
     s.set("auto_config", False)
     s.set("mbqi", False)
     s.set("timeout", timeout_ms)
     s.set("random_seed", 7)
     s.set("relevancy", relevancy)
     for a in all_axioms(scope).values():
-        s.add(a)
+        s.add(a.translate(ctx) if ctx is not None else a)
     return s
 
 
@@ -82,33 +86,58 @@ def quick_unsat(hyps, timeout_ms=1500):
 
 def discharge(hyps, goals, timeout_ms, portfolio=True):
     """Discharge several goals under common hypotheses. Returns list of (status, seconds, reason).
-    Two E-matching configurations are tried in turn (a proof found by either is a proof): z3's default relevancy propagation, and - only when
-    that saturates without a proof - relevancy filtering off (every ground term may trigger an instantiation: robust against the case-split
-    order, which had made one verdict depend on an unrelated axiom being present)."""
-    solvers = {}
 
-    def solver(rel):
-        if rel not in solvers:
-            solvers[rel] = new_solver(timeout_ms, rel, scope=list(hyps) + list(goals))
-            solvers[rel].add(hyps)
-        return solvers[rel]
+    A proof found by any configuration is a proof. z3's running time on these queries is bimodal - the same obligation was seen to take 0.02 s
+    or to exhaust 20 s depending on nothing but term numbering - so a goal is tried under a small portfolio before it is reported undecided:
+      1. a private z3 context (terms copied, so the outcome depends on the query alone, not on what the process built or freed before), short budget;
+      2. the same with another random seed, short budget;
+      3. the shared context, full budget.
+    Within a stage, E-matching with relevancy propagation first and - only when that saturates without a proof - relevancy filtering off (every
+    ground term may trigger; robust against the case-split order, which had made one verdict depend on an unrelated axiom being present).
+    `failed` = some stage saturated without a proof in both E-matching configurations or found a model; `timeout` = every stage ran out of time."""
+    short = min(timeout_ms, 4000)
+    stages = [("private", 7, short), ("private", 101, short), ("shared", 7, timeout_ms)] if portfolio else [("shared", 7, timeout_ms)]
+    if os.environ.get("VERIF_SHARED_CTX"):
+        stages = [("shared", 7, timeout_ms)]
+    solvers = {}
+    ctxs = {}
+
+    def solver(kind, seed, budget, rel):
+        key = (kind, seed, rel)
+        if key not in solvers:
+            ctx = None
+            if kind == "private":
+                ctx = ctxs.setdefault(seed, z3.Context())
+            sv = new_solver(budget, rel, scope=list(hyps) + list(goals), ctx=ctx)
+            sv.set("random_seed", seed)
+            sv.add([h.translate(ctx) for h in hyps] if ctx is not None else hyps)
+            solvers[key] = (sv, ctx)
+        return solvers[key]
     out = []
     for g in goals:
-        total, last = 0.0, None
-        for rel in ((2, 0) if portfolio else (2,)):
-            s = solver(rel)
-            s.push()
-            s.add(z3.Not(g))
-            t = time.time()
-            r = s.check()
-            total += time.time() - t
-            why = s.reason_unknown() if r == z3.unknown else ""
-            s.pop()
-            if last is None or r != z3.unknown:
-                last = (r, why)      # the second configuration can only upgrade the verdict (a proof or a model); otherwise the first one stands
-            if r != z3.unknown or "timeout" in why or "canceled" in why:
-                break
-        r, why = last
+        total, verdict = 0.0, None
+        for kind, seed, budget in stages:
+            last = None
+            for rel in ((2, 0) if portfolio else (2,)):
+                s, ctx = solver(kind, seed, budget, rel)
+                s.push()
+                s.add(z3.Not(g.translate(ctx) if ctx is not None else g))
+                t = time.time()
+                r = s.check()
+                total += time.time() - t
+                why = s.reason_unknown() if r == z3.unknown else ""
+                s.pop()
+                if last is None or r != z3.unknown:
+                    last = (r, why)      # the second configuration can only upgrade the verdict (a proof or a model); otherwise the first one stands
+                if r != z3.unknown or "timeout" in why or "canceled" in why:
+                    break
+            r, why = last
+            timed_out = r == z3.unknown and ("timeout" in why or "canceled" in why)
+            if verdict is None or not timed_out:
+                verdict = (r, why)
+            if not timed_out:
+                break            # proved, refuted or saturated: a later stage would only repeat it
+        r, why = verdict
         if r == z3.unsat:
             out.append(("discharged", total, ""))
         elif r == z3.sat:
